@@ -445,6 +445,7 @@ def run(rep, ctx):
         if has_dstore and n_eff is not None:
             stored = set()
             constck = set()
+            cond_const = {}
             for g in bodies:
                 view = FuncView(g)
                 for (node, m, idx) in view.accesses():
@@ -457,13 +458,31 @@ def run(rep, ctx):
                 for c in g.walk():
                     if c["k"] == "CallExpr" and c.get("callee") == "check_const_arg":
                         k = cv(call_args(c)[1])
-                        if k is not None:
+                        # the check must run whenever derivatives are requested: it may sit behind `al->derivs` and behind
+                        # other argument checks (their failure raises an error anyway), but behind nothing else
+                        plain = True
+
+                        def atoms_of(cn, pol):
+                            cn = strip(cn)
+                            while cn["k"] == "UnaryOperator" and cn.get("op") == "!" and pol in (True, False):
+                                cn, pol = strip(kids(cn)[0]), (not pol)
+                            if cn["k"] == "BinaryOperator" and ((cn.get("op") == "&&" and pol is True) or (cn.get("op") == "||" and pol is False)):
+                                return atoms_of(kids(cn)[0], pol) + atoms_of(kids(cn)[1], pol)
+                            return [(cn, pol)]
+                        for cid, pol in g.cfg.facts_at(c):
+                            for cn, pl in atoms_of(g.nodes[cid], pol):
+                                if pl is True and (al_member(cn) == "derivs" or (cn["k"] == "CallExpr" and (cn.get("callee") or "").startswith("check_"))):
+                                    continue
+                                plain = False
+                                cond_const.setdefault(k, render(cn)[:40])
+                        if k is not None and plain:
                             constck.add(k)
             missing = sorted(set(range(n_eff)) - stored - checked - constck)
             g4.check(not missing, "%s|all-partials" % name, short_loc(f.loc),
                      "%s: partials stored for %s, constancy enforced for %s" % (name, sorted(stored), sorted((checked | constck) & set(range(n_eff)))),
                      "%s: no derivative is stored for argument(s) %s and nothing raises 'argument is not "
-                     "constant' for them: al->derivs[%s] stays uninitialised" % (name, missing, missing))
+                     "constant' for them%s: al->derivs[%s] stays uninitialised" % (name, missing, "".join(
+                         " (the check of argument %s runs only under `%s`)" % (k_, t_) for k_, t_ in sorted(cond_const.items()) if k_ in missing), missing))
         if has_dstore and n_eff is not None:
             hst = set()
             herr = False
